@@ -56,12 +56,22 @@ fn fen_empty_squares(input: &str) -> IResult<&str, Vec<Option<Piece>>> {
 }
 
 fn fen_line(input: &str) -> IResult<&str, FenRank> {
-    let (input, squares) = many1(alt((
+    let (remaining, squares) = many1(alt((
         map(fen_piece, |p| vec![Some(p); 1]),
         fen_empty_squares,
     )))(input)?;
 
-    Ok((input, FenRank(squares.concat())))
+    let squares = squares.concat();
+
+    // Every rank must describe exactly eight squares
+    if squares.len() != File::N {
+        return Err(nom::Err::Error(nom::error::Error::new(
+            input,
+            nom::error::ErrorKind::Verify,
+        )));
+    }
+
+    Ok((remaining, FenRank(squares)))
 }
 
 fn fen_position(input: &str) -> IResult<&str, Board> {
